@@ -14,7 +14,7 @@ def run(res, pool, tier, seed):
     sd = seed % 1000
     if tier == "quick":
         jobs = [dict(module="MC_Mem.tla", tag="s2", invariants=INVS, timeout=1500,
-                     constants=dict(GENK=set(), NGEN=1, S=2, BODIES=set(POLYH + POLYG), KC=set(KC), KX=set(KX), B=1, SEED=sd, NSHARD=220, NSHARDP=4)),
+                     constants=dict(GENK=set(), NGEN=1, S=2, BODIES=set(POLYH + POLYG), KC=set(KC), KX=set(KX), B=1, SEED=sd, NSHARD=320, NSHARDP=4)),
                 dict(module="MC_Mem.tla", tag="s8-near", invariants=INVS, timeout=1500,
                      constants=dict(GENK=set(), NGEN=1, S=8, BODIES={"tet2", "obl", "octa", "hexObl", "par"}, KC={"Segment", "HalfLine"}, KX={"Point"}, B=1,
                                     SEED=sd, NSHARD=40, NSHARDP=10))]
@@ -27,6 +27,11 @@ def run(res, pool, tier, seed):
                      constants=dict(GENK={4, 5, 6}, NGEN=4000, S=2, BODIES=set(), KC=set(), KX={"Point", "Segment"}, B=1, SEED=sd, NSHARD=60, NSHARDP=2)),
                 dict(module="MC_Mem.tla", tag="s8-near", invariants=INVS, timeout=7200,
                      constants=dict(GENK=set(), NGEN=1, S=8, BODIES=set(POLYH + POLYG), KC=set(KC), KX={"Point"}, B=1, SEED=sd, NSHARD=60, NSHARDP=4))]
+    # flat containers only (a line, half-line, segment or plane through the origin in every lattice direction) with composite candidates:
+    # among all containers they are few, and contained half-lines / segments / lines are rare among their candidates
+    jobs.append(dict(module="MC_Mem.tla", tag="flat-containers", invariants=INVS, timeout=3600,
+                     constants=dict(GENK=set(), NGEN=1, S=2, BODIES=set(), KC=set(KC), KX={"Segment", "HalfLine", "Line"}, B=1, SEED=sd + 7,
+                                    NSHARD=8 if tier == "quick" else 2, NSHARDP=1000)))
     # containers with edges / faces of generic slope (unit normals and directions are irrational, feature positions non-dyadic)
     jobs.append(dict(module="MC_Mem.tla", tag="generic-slopes", invariants=INVS, timeout=3600,
                      constants=dict(GENK=set(), NGEN=1, S=2, BODIES={"gprismA", "gtriB"}, KC=set(), KX={"Point", "Segment"}, B=1, SEED=sd,
